@@ -50,7 +50,7 @@ func TestVfC18Startup(t *testing.T) {
 			cfg.Cache = &CacheCfg{MemSize: 1 << 20, IpMarker: "$DIR/marker.txt"}
 		}
 		cfg.DomainSets = []DomainSet{{Tag: "d", Files: []string{"$DIR/dom.txt"}}}
-		failure := rapid.SampledFrom([]string{"addr-in-use", "addr-in-use", "cert-missing", "key-mismatch", "unknown-protocol", "bad-upstream", "missing-marker", "missing-domain-file"}).Draw(t, "failure")
+		failure := rapid.SampledFrom([]string{"addr-in-use", "addr-in-use", "cert-missing", "key-mismatch", "unknown-protocol", "bad-upstream", "missing-marker", "missing-domain-file", "odd-domain-line"}).Draw(t, "failure")
 		idx := rapid.IntRange(0, n-1).Draw(t, "failIdx")
 		var held []interface{ Close() error }
 		defer func() {
@@ -98,6 +98,13 @@ func TestVfC18Startup(t *testing.T) {
 			cfg.Cache = &CacheCfg{MemSize: 1 << 20, IpMarker: "$DIR/absent.txt"}
 		case "missing-domain-file":
 			cfg.DomainSets = append(cfg.DomainSets, DomainSet{Tag: "d2", Files: []string{"$DIR/dom.txt", "$DIR/absent-domains.txt"}})
+		case "odd-domain-line":
+			// a line of a domain file that is no entry, or an entry of nothing: whether the loader takes it (and the proxy
+			// runs) or refuses it (a start-up error) is its choice
+			odd := rapid.SampledFrom([]string{"full:", "domain:", ":", "regexp:", "domain:..", "full:.a", "a..b", "keyword:x", "regexp:(", "regexp:[z-a]",
+				"full:" + strings.Repeat("a", 64), strings.Repeat("abcdefg.", 32) + "x", "domain: ", "full:\t", "\\", "full:\\", "domain:\\."}).Draw(t, "oddLine")
+			files["odd.txt"] = "example.org\n" + odd + "\nexample.net\n"
+			cfg.DomainSets = append(cfg.DomainSets, DomainSet{Tag: "d2", Files: []string{"$DIR/odd.txt"}})
 		}
 		p, err := StartProxy(cfg.YAML(), files, ProxyOpts{ExpectBindFailure: true})
 		if err != nil {
@@ -109,6 +116,16 @@ func TestVfC18Startup(t *testing.T) {
 			time.Sleep(2 * time.Millisecond)
 		}
 		desc := fmt.Sprintf("failure=%s at server %d of kinds %v\n%s", failure, idx, kinds, cfg.YAML())
+		if failure == "odd-domain-line" {
+			desc += "\nodd.txt: " + fmt.Sprintf("%q", files["odd.txt"])
+			if !p.Exited() {
+				// accepted: the proxy runs
+				st.Case(vfkit.Fingerprint(failure, files["odd.txt"]), true, []string{"failure=" + failure, "odd-line-accepted"}, func() any {
+					return map[string]any{"failure": failure, "file": files["odd.txt"], "outcome": "runs"}
+				})
+				return
+			}
+		}
 		if !p.Exited() {
 			t.Fatalf("the process keeps running although a component cannot start; %s\n%s", desc, tail(p.Stderr(), 1500))
 		}
